@@ -579,8 +579,25 @@ class Sim:
             pass
         self.cs = None
 
+    def shutdown_cleanly(self):
+        """What a final stop does at a step boundary: every service's cleanup hook runs (CloudSync.done)."""
+        w = self.world
+        prev = w.ctx
+        w.ctx = "engine"
+        try:
+            self.cs.done()
+        except Exception:               # noqa  a raising cleanup hook is the engine's business: recorded, not fatal here
+            from . import load as _load
+            _load.unhandled.append(("CloudSync.done", "Exception", fmt_exc()[-300:]))
+        finally:
+            w.ctx = prev
+
     def restart(self, mode="intact"):
-        """New engine over the same provider instances and the same storage."""
+        """New engine over the same provider instances and the same storage.  mode 'clean' = intact storage after a clean
+        shutdown (cleanup hooks run); the other modes abandon the engine the way a killed process would."""
+        if mode == "clean":
+            self.shutdown_cleanly()
+            mode = "intact"
         self.abandon()
         self.world.dead = False
         self.world.crash_site = None
